@@ -20,6 +20,24 @@ Proof. exact decode_encode. Qed.
 Theorem C15_encode_inj : forall pk sk pk' sk', pk_ok pk -> pk_ok pk' ->
   enc pk sk = enc pk' sk' -> pk = pk' /\ sk = sk'.
 Proof. exact enc_inj. Qed.
+(* the encoder returns (its value being enc) exactly for node keys shorter than 2^32 bytes and panics
+   otherwise; so do the read entry points *)
+Theorem C15_encode_total_iff : forall pk sk,
+  (pk_ok pk -> rocks_encode pk sk = Some (enc pk sk)) /\ (~ pk_ok pk -> rocks_encode pk sk = None).
+Proof.
+  intros pk sk. unfold rocks_encode, pk_ok. destruct (N.of_nat (length (fst pk)) <? 2 ^ 32) eqn:E.
+  - split; [reflexivity|]. apply N.ltb_lt in E. intro C. contradiction.
+  - split; [|reflexivity]. apply N.ltb_ge in E. intro C. lia.
+Qed.
+Theorem C15_reads_panic_iff : forall (S : Type) (ops : kv_ops S) s pk sk from,
+  (pk_ok pk -> rocks_get_p ops s pk sk = Some (rocks_get ops s pk sk) /\ rocks_list_p ops s pk from = rocks_list ops s pk from) /\
+  (~ pk_ok pk -> rocks_get_p ops s pk sk = None /\ rocks_list_p ops s pk from = None).
+Proof.
+  intros S ops s pk sk from. unfold rocks_get_p, rocks_list_p, rocks_get, rocks_list.
+  split; intro O.
+  - rewrite !(proj1 (C15_encode_total_iff pk _) O). split; reflexivity.
+  - rewrite !(proj2 (C15_encode_total_iff pk _) O). split; reflexivity.
+Qed.
 (* order: inside a partition the byte order of encoded keys is the order of the sort keys; across
    partitions it does not depend on the sort keys at all — so the keys of a partition are contiguous *)
 Theorem C15_order : forall pk pk' x y, pk_ok pk -> pk_ok pk' ->
@@ -132,3 +150,5 @@ Print Assumptions C15_partition_exists_iff_nonempty.
 Print Assumptions C15_kv_assumption_satisfiable.
 Print Assumptions C15_oversize_key_survives_reset.
 Print Assumptions C15_nonvacuous.
+Print Assumptions C15_encode_total_iff.
+Print Assumptions C15_reads_panic_iff.
